@@ -16,7 +16,9 @@ VERIF = os.path.abspath(os.path.join(os.path.dirname(__file__), "..", ".."))
 REPO = os.environ.get("VERIF_REPO", "/repo")
 ROCQ = os.path.join(VERIF, "rocq")
 WORK = os.path.join(VERIF, "work")
-EVID = os.path.join(VERIF, "evidence")
+# evidence/ describes runs against /repo itself; a run against a scratch copy (VERIF_REPO: seeded changes, proposed
+# repairs) writes its evidence under work/ so that the committed files never come from a snapshot
+EVID = os.path.join(VERIF, "evidence") if os.path.realpath(REPO) == "/repo" else os.path.join(WORK, "evidence_scratch")
 PY = "/venv/bin/python"
 NCPU = int(os.environ.get("VERIF_NCPU", min(16, os.cpu_count() or 4)))
 
